@@ -6,12 +6,13 @@ import (
 	"encoding/json"
 	"errors"
 	"fmt"
+	"strconv"
 	"strings"
 
-	"github.com/virel-project/go-randomvirel"
 	"github.com/virel-project/virel-blockchain/v3/adb"
 	"github.com/virel-project/virel-blockchain/v3/block"
 	"github.com/virel-project/virel-blockchain/v3/config"
+	"github.com/virel-project/virel-blockchain/v3/stratum/stratumsrv"
 	"github.com/virel-project/virel-blockchain/v3/util"
 )
 
@@ -21,10 +22,23 @@ type Op struct {
 	Cid    int    // connection
 	Addr   int    // L: address index (0 = a login string that is not an address)
 	Sel    int    // S: k-th newest job ever sent to Cid (0 = newest); -1 = an id nobody was given; -2 = newest job of another miner
-	Nonce  string // S: hex text of the nonce field
+	Nonce  string // S: hex text of the nonce field (with Mine: where the search for a nonce starts)
 	Extra  string // S: hex text of nonce_extra ("" = absent)
 	Merge  string // S: shape of the merge-mining blob: "", "own", "own+f", "f+own", "garbage", "ownown", "empty"
 	ExtraB []byte
+	// S: which job, when the order in which overlapping broadcasts reached the connection is not known to the script:
+	// "" = Sel; "low" / "high" = the job of the lowest / highest height among the jobs the server still holds for Cid
+	// (the last STRATUM_JOBS_HISTORY sent); ties: the newer
+	Pick string
+	// S: the nonce is searched for, as a miner does, with the consensus proof-of-work function keyed with the seed of
+	// the blob that is hashed: "hit" = a nonce whose value meets the target SENT WITH THE JOB (the weakest such value
+	// among a batch of nonces: a share right at the advertised target); "any" = the first nonce found that meets it;
+	// "miss" = a nonce that just fails it
+	Mine string
+	// S with Merge: timestamp of the merge-mining blob: "" = the job's (+0..2 ms); "prev" / "next" = last millisecond
+	// of the seed period before / first millisecond of the seed period after the job's blob; "prev-<ms>" = <ms> before
+	// "prev"; "par+<ms>" = <ms> after the parent block of the job's block; "now-<ms>" = <ms> before the current time
+	Ts string
 }
 
 func (o Op) String() string {
@@ -39,11 +53,20 @@ func (o Op) String() string {
 		return fmt.Sprintf("D%d", o.Cid)
 	}
 	s := fmt.Sprintf("S%d:j%d:n%s", o.Cid, o.Sel, o.Nonce)
+	if o.Pick != "" {
+		s = fmt.Sprintf("S%d:j%s:n%s", o.Cid, o.Pick, o.Nonce)
+	}
+	if o.Mine != "" {
+		s += ":" + o.Mine
+	}
 	if o.Extra != "" {
 		s += ":x" + o.Extra
 	}
 	if o.Merge != "" {
 		s += ":m" + o.Merge
+	}
+	if o.Ts != "" {
+		s += "@" + o.Ts
 	}
 	return s
 }
@@ -63,7 +86,11 @@ var errDisturbed = errors.New("unexpected message order")
 type Run struct {
 	w          *World
 	steps      []Step
-	pendingTpl int // number of the template whose SendJob goroutines are waiting
+	pendingTpl int  // number of the newest template (SendJob call)
+	multi      bool // scenario scripts: a template may be produced while notifications of earlier ones are still queued
+	// a share whose value meets the target sent with its job was not accepted (the property fails at that step): the
+	// rest of a scenario script, which counts on the block, may then not be executable
+	validRejected bool
 }
 
 func (r *Run) add(ev, obs, kind, human string, auto bool) {
@@ -72,7 +99,7 @@ func (r *Run) add(ev, obs, kind, human string, auto bool) {
 
 func (r *Run) anyPending(except int) bool {
 	for _, m := range r.w.miners {
-		if m.alive && m.pending && m.cid != except {
+		if m.alive && m.pending() && m.cid != except {
 			return true
 		}
 	}
@@ -84,10 +111,15 @@ func (r *Run) jobObs(m *Miner, j jobMsg) (term string, human string, mb block.Mi
 	if err != nil {
 		return "", "", mb, err
 	}
+	tb, err := hex.DecodeString(j.Target)
+	if err != nil || len(tb) != 8 {
+		return "", "", mb, fmt.Errorf("job %s: target %q is not eight bytes", j.JobID, j.Target)
+	}
 	tn, ai := r.w.ownOf(mb)
-	m.sent = append(m.sent, sentJob{JobID: j.JobID, Blob: raw, Tpl: tn})
-	return fmt.Sprintf("OJob %d %s", r.w.jobId(j.JobID), r.w.blobTerm(mb)),
-		fmt.Sprintf("job %s to miner %d: content %d pays address %d extra#%d", j.JobID, m.cid, tn, ai, r.w.extraId(mb.NonceExtra)), mb, nil
+	m.sent = append(m.sent, sentJob{JobID: j.JobID, Blob: raw, Tpl: tn, Target: tb, Height: j.Height})
+	return fmt.Sprintf("OJob %d %s %d", r.w.jobId(j.JobID), r.w.blobTerm(mb), binary.LittleEndian.Uint64(tb)),
+		fmt.Sprintf("job %s to miner %d: content %d height %d pays address %d extra#%d target %s (difficulty %s)", j.JobID, m.cid, tn, j.Height, ai,
+			r.w.extraId(mb.NonceExtra), j.Target, util.ByteTargetToDiff(tb).String()), mb, nil
 }
 
 func (r *Run) login(op Op) error {
@@ -109,7 +141,7 @@ func (r *Run) login(op Op) error {
 	}
 	if l.Error != nil {
 		w.drop(m)
-		r.add(fmt.Sprintf("ELogin %d %d 0", op.Cid, op.Addr), "GO OLoginRefused false", "login-refused", "login of miner refused", false)
+		r.add(fmt.Sprintf("ELogin %d %d 0", op.Cid, op.Addr), "GO OLoginRefused None", "login-refused", "login of miner refused", false)
 		return nil
 	}
 	var res struct {
@@ -122,7 +154,7 @@ func (r *Run) login(op Op) error {
 	if err != nil {
 		return err
 	}
-	r.add(fmt.Sprintf("ELogin %d %d %d", op.Cid, op.Addr, w.jobId(res.Job.JobID)), "GO ("+t+") false", "login-job", "login: "+h, false)
+	r.add(fmt.Sprintf("ELogin %d %d %d", op.Cid, op.Addr, w.jobId(res.Job.JobID)), "GO ("+t+") None", "login-job", "login: "+h, false)
 	return nil
 }
 
@@ -135,23 +167,34 @@ func (r *Run) templateEvent(t *tplInfo, auto bool) {
 		ch += r.w.chainTerm(c)
 	}
 	ch += "]"
-	r.add(fmt.Sprintf("ETemplate %d %d %d %s", t.class, t.copy.Timestamp, r.w.extraId(t.copy.NonceExtra), ch), "GO ONone false", "template",
-		fmt.Sprintf("template %d (content %d) height %d difficulty %s", t.num, t.class, t.copy.Height, t.copy.Difficulty.String()), auto)
+	r.add(fmt.Sprintf("ETemplate %d %d %d %s %s %s", t.class, t.copy.Timestamp, r.w.extraId(t.copy.NonceExtra), ch, t.copy.Difficulty.String(), t.mindiff.String()),
+		"GO ONone None", "template",
+		fmt.Sprintf("template %d (content %d) height %d difficulty %s, SendJob called with minimum difficulty %s", t.num, t.class, t.copy.Height,
+			t.copy.Difficulty.String(), t.mindiff.String()), auto)
 }
 
 func (r *Run) template() error {
 	w := r.w
-	if r.anyPending(-1) {
+	if r.anyPending(-1) && !r.multi {
 		return errPruned
+	}
+	for _, m := range w.miners {
+		if len(m.pendK) >= config.STRATUM_JOBS_HISTORY {
+			return errPruned // the order of more critical sections than the job list holds cannot be read back
+		}
 	}
 	for _, m := range w.miners {
 		m.hold()
 	}
+	n0 := len(w.tpls)
 	w.bc.NewStratumJob(true)
 	t := w.registerTemplate()
+	if t.num <= n0 {
+		return fmt.Errorf("NewStratumJob did not announce a new template")
+	}
 	for _, m := range w.miners {
 		if m.alive {
-			m.pending = true
+			m.pendK = append(m.pendK, t.num)
 		}
 	}
 	r.pendingTpl = t.num
@@ -160,22 +203,71 @@ func (r *Run) template() error {
 }
 
 func (r *Run) notify(op Op) error {
-	m := r.w.miners[op.Cid]
-	if m == nil || !m.alive || !m.pending {
+	w := r.w
+	m := w.miners[op.Cid]
+	if m == nil || !m.alive || !m.pending() {
 		return errPruned
 	}
+	n := len(m.pendK)
 	m.unhold()
-	j, ok := m.waitJob(waitT)
-	if !ok {
-		return errDisturbed
+	got := map[string]jobMsg{}
+	for i := 0; i < n; i++ {
+		j, ok := m.waitJob(waitT)
+		if !ok {
+			return errDisturbed
+		}
+		got[j.JobID] = j
 	}
-	m.pending = false
-	t, h, mb, err := r.jobObs(m, j)
-	if err != nil {
-		return err
+	// the order in which the queued critical sections ran: the connection's own job list
+	var held []string
+	m.conn.View(func(c *stratumsrv.ConnData) error {
+		for _, j := range c.Jobs {
+			held = append(held, j.JobID)
+		}
+		return nil
+	})
+	var order []jobMsg
+	for _, id := range held {
+		if j, ok := got[id]; ok {
+			order = append(order, j)
+			delete(got, id)
+		}
 	}
-	r.add(fmt.Sprintf("ENotify %d %d %d %d", op.Cid, r.pendingTpl, r.w.extraId(mb.NonceExtra), r.w.jobId(j.JobID)),
-		"GO ("+t+") false", "notify-job", "notify: "+h, false)
+	if len(order) != n {
+		return fmt.Errorf("miner %d was sent %d jobs, %d of them are in the connection's job list %v", m.cid, n, len(order), held)
+	}
+	pend := append([]int{}, m.pendK...)
+	m.pendK = nil
+	for _, j := range order {
+		t, h, mb, err := r.jobObs(m, j)
+		if err != nil {
+			return err
+		}
+		// which SendJob call made this job: the one whose template has the job's content and timestamp
+		cls, _ := w.ownOf(mb)
+		ki := -1
+		for i, k := range pend {
+			if ti := w.tpls[k-1]; ti.class == cls && ti.copy.Timestamp == mb.Timestamp {
+				ki = i
+				break
+			}
+		}
+		if ki < 0 {
+			for i, k := range pend {
+				if w.tpls[k-1].class == cls {
+					ki = i
+					break
+				}
+			}
+		}
+		if ki < 0 {
+			ki = 0 // a job that matches no queued broadcast: the model will disagree
+		}
+		k := pend[ki]
+		pend = append(pend[:ki], pend[ki+1:]...)
+		r.add(fmt.Sprintf("ENotify %d %d %d %d", op.Cid, k, w.extraId(mb.NonceExtra), w.jobId(j.JobID)),
+			"GO ("+t+") None", "notify-job", fmt.Sprintf("notify (SendJob call %d): %s", k, h), false)
+	}
 	return nil
 }
 
@@ -185,12 +277,54 @@ func (r *Run) disconnect(op Op) error {
 		return errPruned
 	}
 	r.w.drop(m)
-	r.add(fmt.Sprintf("EDisconnect %d", op.Cid), "GO ONone false", "disconnect", fmt.Sprintf("miner %d disconnects", op.Cid), false)
+	r.add(fmt.Sprintf("EDisconnect %d", op.Cid), "GO ONone None", "disconnect", fmt.Sprintf("miner %d disconnects", op.Cid), false)
 	return nil
 }
 
+// blobTime computes the timestamp a merge-mining blob gets (Op.Ts).
+func (r *Run) blobTime(ts string, sent block.MiningBlob, tpl *tplInfo) (uint64, error) {
+	const period = uint64(config.SEEDHASH_DURATION) * 1000
+	switch {
+	case ts == "prev":
+		return sent.Timestamp/period*period - 1, nil
+	case strings.HasPrefix(ts, "prev-"):
+		d, err := strconv.ParseUint(ts[5:], 10, 64)
+		if err != nil {
+			return 0, fmt.Errorf("bad timestamp rule %q", ts)
+		}
+		return sent.Timestamp/period*period - 1 - d, nil
+	case ts == "next":
+		return (sent.Timestamp/period + 1) * period, nil
+	case strings.HasPrefix(ts, "par+"):
+		d, err := strconv.ParseUint(ts[4:], 10, 64)
+		if err != nil {
+			return 0, fmt.Errorf("bad timestamp rule %q", ts)
+		}
+		if tpl == nil {
+			return sent.Timestamp + d, nil // a job whose template the harness does not know: relative to the job itself
+		}
+		var pts uint64
+		err = r.w.db.View(func(txn adb.Txn) error {
+			pb, err := r.w.bc.GetBlock(txn, tpl.copy.PrevHash())
+			if err != nil {
+				return err
+			}
+			pts = pb.Timestamp
+			return nil
+		})
+		return pts + d, err
+	case strings.HasPrefix(ts, "now-"):
+		d, err := strconv.ParseUint(ts[4:], 10, 64)
+		if err != nil {
+			return 0, fmt.Errorf("bad timestamp rule %q", ts)
+		}
+		return util.Time() - d, nil
+	}
+	return 0, fmt.Errorf("bad timestamp rule %q", ts)
+}
+
 // mergeBlob builds the merge-mining blob a masterchain node would submit for the job whose sent blob is `sent`.
-func (r *Run) mergeBlob(shape string, sent block.MiningBlob, salt byte) []byte {
+func (r *Run) mergeBlob(shape string, sent block.MiningBlob, salt byte, ts string, tpl *tplInfo) ([]byte, error) {
 	own := block.HashingID{NetworkID: config.NETWORK_ID}
 	for _, c := range sent.Chains {
 		if c.NetworkID == config.NETWORK_ID {
@@ -202,6 +336,13 @@ func (r *Run) mergeBlob(shape string, sent block.MiningBlob, salt byte) []byte {
 	hi := block.HashingID{NetworkID: config.NETWORK_ID + 7, Hash: fh}
 	lo := block.HashingID{NetworkID: config.NETWORK_ID - 1, Hash: fh} // 0 on unittest: refused by setMiningBlob ("not sorted")
 	mb := block.MiningBlob{Timestamp: sent.Timestamp + uint64(salt%3), NonceExtra: sent.NonceExtra, Nonce: 77}
+	if ts != "" {
+		t, err := r.blobTime(ts, sent, tpl)
+		if err != nil {
+			return nil, err
+		}
+		mb.Timestamp = t
+	}
 	mb.NonceExtra[0] ^= salt
 	switch shape {
 	case "own":
@@ -213,9 +354,9 @@ func (r *Run) mergeBlob(shape string, sent block.MiningBlob, salt byte) []byte {
 	case "ownown":
 		mb.Chains = []block.HashingID{own, own}
 	case "garbage":
-		return []byte{1, 2, 3, salt}
+		return []byte{1, 2, 3, salt}, nil
 	}
-	return mb.Serialize()
+	return mb.Serialize(), nil
 }
 
 func classifyError(msg string) string {
@@ -235,23 +376,53 @@ func classifyError(msg string) string {
 	return "other-error"
 }
 
+// pickJob chooses among the jobs the server still holds for the connection (Op.Pick).
+func pickJob(m *Miner, pick string) (sentJob, bool) {
+	n := len(m.sent)
+	lo := n - config.STRATUM_JOBS_HISTORY
+	if lo < 0 {
+		lo = 0
+	}
+	best := -1
+	for i := lo; i < n; i++ {
+		switch {
+		case best < 0:
+			best = i
+		case pick == "low" && m.sent[i].Height <= m.sent[best].Height:
+			best = i
+		case pick == "high" && m.sent[i].Height >= m.sent[best].Height:
+			best = i
+		}
+	}
+	if best < 0 {
+		return sentJob{}, false
+	}
+	return m.sent[best], true
+}
+
 func (r *Run) submit(op Op) error {
 	w := r.w
 	m := w.miners[op.Cid]
-	if m == nil || !m.alive || m.pending {
+	if m == nil || !m.alive || m.pending() {
 		return errPruned
 	}
 	// which job
 	var jobid string
-	var sentRaw []byte
-	var jobTpl int
+	var sj sentJob
+	own := false
 	switch {
+	case op.Pick != "":
+		var ok bool
+		if sj, ok = pickJob(m, op.Pick); !ok {
+			return errPruned
+		}
+		jobid, own = sj.JobID, true
 	case op.Sel >= 0:
 		if op.Sel >= len(m.sent) {
 			return errPruned
 		}
-		sj := m.sent[len(m.sent)-1-op.Sel]
-		jobid, sentRaw, jobTpl = sj.JobID, sj.Blob, sj.Tpl
+		sj = m.sent[len(m.sent)-1-op.Sel]
+		jobid, own = sj.JobID, true
 	case op.Sel == -1:
 		jobid = "nobodysjob"
 	default:
@@ -264,43 +435,38 @@ func (r *Run) submit(op Op) error {
 			return errPruned
 		}
 	}
+	sentRaw, jobTpl := sj.Blob, sj.Tpl
 	// the automatic template after a block on top of the chain needs every other connection without a pending
-	// notification (two queued SendJob goroutines on one connection have no deterministic order)
+	// notification (two queued SendJob goroutines on one connection have no order the script could name); the
+	// scenario scripts read the order back instead
 	if ti := w.classInfo(jobTpl); ti != nil && ti.copy.Height == w.topHeight()+1 && r.anyPending(m.cid) {
-		return errPruned
+		if !r.multi {
+			return errPruned
+		}
+		for _, o := range w.miners {
+			if o.alive && o.cid != m.cid && len(o.pendK) >= config.STRATUM_JOBS_HISTORY {
+				return errPruned
+			}
+		}
 	}
 	var sentMb block.MiningBlob
 	if sentRaw != nil {
 		sentMb.Deserialize(sentRaw)
 	}
-	params := map[string]any{"id": "x", "job_id": jobid, "nonce": op.Nonce, "result": ""}
+	params := map[string]any{"id": "x", "job_id": jobid, "result": ""}
 	if op.Extra != "" {
 		params["nonce_extra"] = op.Extra
 	}
 	var mergeRaw []byte
 	if op.Merge != "" {
-		mergeRaw = r.mergeBlob(op.Merge, sentMb, byte(len(r.steps)+1))
+		var err error
+		mergeRaw, err = r.mergeBlob(op.Merge, sentMb, byte(len(r.steps)+1), op.Ts, w.classInfo(jobTpl))
+		if err != nil {
+			return err
+		}
 		params["blob"] = hex.EncodeToString(mergeRaw)
 	}
-	// event term
-	nonceTerm := "NBadHex"
-	nb, nerr := hex.DecodeString(op.Nonce)
-	if nerr == nil {
-		var v uint32
-		if len(nb) >= 4 {
-			v = binary.LittleEndian.Uint32(nb)
-		}
-		nonceTerm = fmt.Sprintf("(NBytes %d %d)", len(nb), v)
-	}
-	extraTerm := "XNone"
 	xb, _ := hex.DecodeString(op.Extra)
-	if len(xb) > 0 {
-		if len(xb) == 16 {
-			extraTerm = fmt.Sprintf("(XBytes 16 %d)", w.extraId([16]byte(xb)))
-		} else {
-			extraTerm = fmt.Sprintf("(XBytes %d 0)", len(xb))
-		}
-	}
 	mergeTerm := "MNone"
 	var mergeMb block.MiningBlob
 	if len(mergeRaw) > 0 {
@@ -310,33 +476,64 @@ func (r *Run) submit(op Op) error {
 			mergeTerm = "(MBlob " + w.blobTerm(mergeMb) + ")"
 		}
 	}
-	ev := fmt.Sprintf("ESubmit %d %d %s %s %s", op.Cid, w.jobId(jobid), nonceTerm, extraTerm, mergeTerm)
 
-	// does the submitted nonce solve the blob the miner was given (as completed by the miner's own fields)?
-	solves := false
-	if sentRaw != nil && nerr == nil && len(nb) >= 4 && w.classInfo(jobTpl) != nil {
-		raw := append([]byte{}, sentRaw...)
-		if mergeTerm != "MNone" && mergeTerm != "MBad" {
-			raw = append([]byte{}, mergeRaw...)
+	// the blob the miner hashes: the blob it was sent or the merge-mining blob it submits, with its extra nonce
+	nonceText := op.Nonce
+	nb, nerr := hex.DecodeString(nonceText)
+	powTerm, powHuman := "None", ""
+	meets := false
+	if own && sentRaw != nil && mergeTerm != "MBad" && nerr == nil && len(nb) >= 4 {
+		base := sentMb
+		if mergeTerm != "MNone" {
+			base = mergeMb
 		}
-		if len(raw) >= 43 {
-			if len(xb) == 16 {
-				copy(raw[8:24], xb)
-			}
-			copy(raw[39:43], nb[:4])
-			var mb block.MiningBlob
-			if mb.Deserialize(raw) == nil {
-				diff := w.classInfo(jobTpl).copy.Difficulty
-				worst := [16]byte{0xff, 0xff, 0xff, 0xff, 0xff, 0xff, 0xff, 0xff, 0xff, 0xff, 0xff, 0xff, 0xff, 0xff, 0xff, 0xff}
-				if block.ValidPowHash(worst, diff) {
-					solves = true // the largest hash value meets this difficulty: every nonce solves (unittest: difficulty 1)
-				} else {
-					pow := randomvirel.PowHash(mb.GetSeed(), raw)
-					solves = block.ValidPowHash([16]byte(pow[16:]), diff)
+		if len(xb) == 16 {
+			base.NonceExtra = [16]byte(xb)
+		}
+		base.Nonce = binary.LittleEndian.Uint32(nb)
+		dAdv := util.ByteTargetToDiff(sj.Target)
+		if !trivialDiff(dAdv) {
+			// proof of work is real: the consensus function, keyed with the seed of the blob that is hashed
+			var val [16]byte
+			if op.Mine != "" {
+				var alt *[32]byte
+				if js := sentMb.GetSeed(); js != base.GetSeed() {
+					alt = &js
 				}
+				base.Nonce, val = mine(base, dAdv, op.Mine, alt)
+				nb = make([]byte, 4)
+				binary.LittleEndian.PutUint32(nb, base.Nonce)
+				nonceText = hex.EncodeToString(nb)
+			} else {
+				val = powValue(base.GetSeed(), base)
 			}
+			v := valNum(val)
+			meets = block.ValidPowHash(val, dAdv)
+			powTerm = fmt.Sprintf("(Some (mkpow %s %d %s))", w.blobTerm(base), block.GetSeedhashId(base.Timestamp), v)
+			powHuman = fmt.Sprintf(" [the miner hashed timestamp %d nonce %d under seed period %d: value %s, meets the advertised target: %v]",
+				base.Timestamp, base.Nonce, block.GetSeedhashId(base.Timestamp), v, block.ValidPowHash(val, dAdv))
 		}
 	}
+	params["nonce"] = nonceText
+
+	// event term
+	nonceTerm := "NBadHex"
+	if nerr == nil {
+		var v uint32
+		if len(nb) >= 4 {
+			v = binary.LittleEndian.Uint32(nb)
+		}
+		nonceTerm = fmt.Sprintf("(NBytes %d %d)", len(nb), v)
+	}
+	extraTerm := "XNone"
+	if len(xb) > 0 {
+		if len(xb) == 16 {
+			extraTerm = fmt.Sprintf("(XBytes 16 %d)", w.extraId([16]byte(xb)))
+		} else {
+			extraTerm = fmt.Sprintf("(XBytes %d 0)", len(xb))
+		}
+	}
+	ev := fmt.Sprintf("ESubmit %d %d %s %s %s", op.Cid, w.jobId(jobid), nonceTerm, extraTerm, mergeTerm)
 
 	// hold the others: a found block makes the node send a new template to everybody
 	var spec []*Miner
@@ -347,6 +544,7 @@ func (r *Run) submit(op Op) error {
 		}
 	}
 	before := w.topHash()
+	ntpl := len(w.tpls)
 	m.nextId++
 	if err := m.send(map[string]any{"jsonrpc": "2.0", "id": m.nextId, "method": "submit", "params": params}); err != nil {
 		// the handler died while reading (panic) or closed the connection
@@ -358,7 +556,7 @@ func (r *Run) submit(op Op) error {
 	case !got:
 		<-m.done
 		if m.panicv != nil {
-			kind, obs, human = "panic", "GO OPanic "+boolTerm(solves), fmt.Sprintf("handler goroutine panicked: %v", m.panicv)
+			kind, obs, human = "panic", "GO OPanic "+powTerm, fmt.Sprintf("handler goroutine panicked: %v", m.panicv)
 		} else {
 			return errDisturbed
 		}
@@ -367,15 +565,15 @@ func (r *Run) submit(op Op) error {
 		kind = classifyError(l.Error.Message)
 		switch kind {
 		case "unknown-job":
-			obs = "GO OUnknownJob " + boolTerm(solves)
+			obs = "GO OUnknownJob " + powTerm
 		case "malformed":
-			obs, dead = "GO OMalformed "+boolTerm(solves), true
+			obs, dead = "GO OMalformed "+powTerm, true
 		case "blob-refused":
-			obs, dead = "GO OBlobRefused "+boolTerm(solves), true
+			obs, dead = "GO OBlobRefused "+powTerm, true
 		case "low-diff":
-			obs = "GO ORejectedLowDiff " + boolTerm(solves)
+			obs = "GO ORejectedLowDiff " + powTerm
 		case "chain-refused":
-			obs = "GRefusedByChain"
+			obs = "GRefusedByChain " + powTerm
 		default:
 			return fmt.Errorf("unclassified error reply %q", l.Error.Message)
 		}
@@ -418,15 +616,19 @@ func (r *Run) submit(op Op) error {
 			jmb := bl.Commitment().MiningBlob()
 			tn, _ := w.ownOf(jmb)
 			kind = "found"
-			obs = fmt.Sprintf("GO (OFound %d %s) %s", ai, w.blobTerm(jmb), boolTerm(solves))
-			human = fmt.Sprintf("block found at height %d with content %d paying address %d (submitter logged in with address %d)", bl.Height, tn, ai, m.addrIdx)
+			obs = fmt.Sprintf("GO (OFound %d %s) %s", ai, w.blobTerm(jmb), powTerm)
+			human = fmt.Sprintf("block found at height %d difficulty %s timestamp %d with content %d paying address %d (submitter logged in with address %d)",
+				bl.Height, bl.Difficulty.String(), bl.Timestamp, tn, ai, m.addrIdx)
 			found = true
 		}
 		if !found {
 			return fmt.Errorf("OK reply without a block of this chain")
 		}
 	}
-	r.add(ev, obs, kind, fmt.Sprintf("miner %d submits job %s: %s", m.cid, jobid, human), false)
+	r.add(ev, obs, kind, fmt.Sprintf("miner %d submits job %s (height %d): %s%s", m.cid, jobid, sj.Height, human, powHuman), false)
+	if meets && kind != "found" && kind != "chain-refused" {
+		r.validRejected = true
+	}
 	if dead {
 		for _, o := range spec {
 			o.unhold()
@@ -440,10 +642,13 @@ func (r *Run) submit(op Op) error {
 			return errDisturbed
 		}
 		t := w.registerTemplate()
+		if t.num <= ntpl {
+			return fmt.Errorf("a block on top of the chain was not followed by a new template")
+		}
 		r.pendingTpl = t.num
 		for _, o := range w.miners {
 			if o.alive && o.cid != m.cid {
-				o.pending = true
+				o.pendK = append(o.pendK, t.num)
 			}
 		}
 		r.templateEvent(t, true)
@@ -452,7 +657,7 @@ func (r *Run) submit(op Op) error {
 			return err
 		}
 		r.add(fmt.Sprintf("ENotify %d %d %d %d", m.cid, t.num, w.extraId(mb.NonceExtra), w.jobId(j.JobID)),
-			"GO ("+jt+") false", "notify-job", "notify (automatic): "+h, true)
+			"GO ("+jt+") None", "notify-job", fmt.Sprintf("notify (automatic, SendJob call %d): %s", t.num, h), true)
 	} else {
 		for _, o := range spec {
 			o.unhold()
@@ -489,7 +694,7 @@ func (r *Run) finish() {
 	for _, m := range r.w.miners {
 		if m.alive && m.held {
 			m.unhold()
-			if m.pending {
+			for range m.pendK {
 				m.waitJob(waitT)
 			}
 		}
